@@ -158,9 +158,9 @@ def enum_part(p, part, nparts, tier):
                     'prefixes': dict(PREFIXES) if cfg['prefixes'] else {},
                     'bypass_prefixes': list(cfg['bypass_prefixes']),
                     'disable_version_checks': cfg['disable_version_checks'],
-                    'pr_author_options': {'alice': {
-                        'bypass_jira_check': True}}
-                    if cfg['bypass'] == 'author' else {},
+                    'pr_author_options': core.author_options(
+                        'alice', ['bypass_jira_check']
+                        if cfg['bypass'] == 'author' else []),
                     'pull_request_base_url': 'http://h/{pr_id}'})
                 refcfg = dict(cfg, configured=cfg['configured'] == 'all',
                               jira_keys=jira_keys,
